@@ -246,6 +246,7 @@ class World:
 
     def _final(self):
         exc_owner = [str(c.get("exception") or c.get("message")) for c in self.owner.exc_log]
+        exc_owner_types = [type(c.get("exception")).__name__ for c in self.owner.exc_log]
         undisturbed = self.owner_state == "running"
         for c in self.calls:
             kind, arg = c["kind"], c["arg"]
@@ -291,7 +292,7 @@ class World:
                     self.viol.append(f"{tag}: plain call returned {out} to the caller, expected None at once")
                 if undisturbed and len(execs) != 1:
                     self.viol.append(f"{tag}: queued plain call executed {len(execs)} times although the owner's loop kept running")
-                if undisturbed and kind == "plain_val" and not any("ThreadsafeProxy can only wrap" in e for e in exc_owner):
+                if undisturbed and kind == "plain_val" and "TypeError" not in exc_owner_types:
                     self.viol.append(f"{tag}: non-None result of a plain call was not reported as TypeError on the owner's loop")
             else:
                 if undisturbed:
